@@ -1039,7 +1039,8 @@ func main() {
 			if math.Float64bits(z) != math.Float64bits(x) {
 				bad = "pow(x, 1) must be x"
 			}
-		case x > 0 && !math.IsInf(x, 0) && !math.IsInf(y, 0):
+		case x >= 2.2250738585072014e-308 && !math.IsInf(x, 0) && !math.IsInf(y, 0):
+			// (subnormal x excluded: the reference below goes through math.Log, which is off there on amd64)
 			ref := math.Exp(y * math.Log(x))
 			if y == math.Trunc(y) && math.Abs(y) <= 64 {
 				// repeated multiplication in big.Float as the reference
@@ -1120,6 +1121,24 @@ func main() {
 		idx := goSide(map[string]interface{}{"fn": "'a' * 9223372036854775807", "observed": o.json()})
 		if o.panicked != nil {
 			cf.Violation(idx, fmt.Sprintf("'a' * 9223372036854775807 panicked: %v", o.panicked), "repeat-beyond-memory")
+		}
+	}
+
+	// COALESCE over tuples of different lengths: the output type (TypeSum) takes the longer one and
+	// calculateMapping indexes the shorter argument type past its end (known finding, one fixed probe)
+	{
+		tup := func(ts ...octosql.Type) octosql.Type {
+			return octosql.Type{TypeID: octosql.TypeIDTuple, Tuple: struct{ Elements []octosql.Type }{Elements: ts}}
+		}
+		short, long := tup(octosql.Int, octosql.Int), tup(octosql.Int, octosql.Int, octosql.Int)
+		n := 0
+		o := runCoalesce(octosql.TypeSum(short, long), []octosql.Type{short, long},
+			[]execution.Expression{&countingExpr{val: octosql.NewTuple([]octosql.Value{octosql.NewInt(1), octosql.NewInt(2)}), count: &n}, &countingExpr{val: octosql.NewNull(), count: &n}})
+		idx := goSide(map[string]interface{}{"fn": "COALESCE((1, 2), (1, 2, 3))", "observed": o.json()})
+		if o.panicked != nil {
+			cf.Violation(idx, fmt.Sprintf("COALESCE((1, 2), (1, 2, 3)) panicked: %v", o.panicked), "coalesce-tuple-length")
+		} else if o.err != nil || o.val.TypeID != octosql.TypeIDTuple || len(o.val.Tuple) < 2 || o.val.Tuple[0].Int != 1 || o.val.Tuple[1].Int != 2 {
+			cf.Violation(idx, fmt.Sprintf("COALESCE((1, 2), (1, 2, 3)) = %v", o.json()), "")
 		}
 	}
 
